@@ -7,12 +7,13 @@ Local Open Scope R_scope.
 
 (* the returned fits: the raw results of the best-fit search for multi-curve sets; for a single curve measured at
    Tc they are re-scaled (always in the non-isothermal process, only when Tc <> T otherwise) *)
-Theorem C05_returned_fits (iso : bool) (m : Mixture ROps) cd n dt prec ct slv ea single raw1 raw2 ip rows fits :
-  non_ideal_entry ROps iso m cd n dt prec ct slv ea single raw1 raw2 ip = Ok (rows, fits) ->
+Theorem C05_returned_fits (iso : bool) (m : Mixture ROps) cd n dt prec ct slv ea single raw1 raw2 ip cxs rows fits :
+  non_ideal_entry ROps iso m cd n dt prec ct slv ea single raw1 raw2 ip cxs = Ok (rows, fits) ->
   nonideal_fits ROps single (negb iso) (cd_T0 cd) ea m raw1 raw2 = Ok fits /\
   non_ideal_process ROps iso m cd n dt prec ct slv (fst fits) (snd fits) ip = Ok rows.
 Proof.
   unfold non_ideal_entry. intros H.
+  destruct (mapM _ cxs); [|discriminate]. cbn [bind] in H.
   destruct (nonideal_fits ROps single (negb iso) (cd_T0 cd) ea m raw1 raw2) as [f|]; [|discriminate]. cbn [bind] in H.
   destruct (non_ideal_process ROps iso m cd n dt prec ct slv (fst f) (snd f) ip) as [r|] eqn:E; [|discriminate]. cbn [bind] in H.
   injection H as <- <-. split; [reflexivity | exact E].
